@@ -203,6 +203,10 @@ package db
 //@   ensures[external-imported-first] doc != nil && isNilErr(resultErr) && !callres(IsSGWrite, 1, 0) ==> called(OnDemandImportForWrite, 1) && isNilErr(callres(OnDemandImportForWrite, 1, 0))
 //@   before[this-doc]   call IsSGWrite#1 $0 == doc && len($2) == 0
 //@   before[import-doc] call OnDemandImportForWrite#1 $3 == doc
+// (C19) the body installed on the document that is stored has no "_deleted" member, whatever its value was
+// ("_deleted": false / null / a non-boolean included): the key is removed whenever it is PRESENT.
+//@   before[no-deleted-in-stored-body] call UpdateBody#1 $0 == newDoc && !(BodyDeleted in $1)
+//@   also C19: no-deleted-in-stored-body
 
 // PutExistingRev / PutExistingRevWithBody / PutExistingRevWithConflictResolution (replication push, bulk_docs new_edits=false).
 // Scope [no-resolver]: the configuration the property is about -- a writer that loses receives a conflict error.
@@ -266,6 +270,9 @@ package db
 //@ func Body.ExtractExpiry
 //@   trusted
 //@   modifies elems(body)
+//@   ensures[only-exp]  forall k string :: {k in body} {body[k]} k != BodyExpiry ==> ((k in body) <==> old(k in body)) && body[k] == old(body[k])
+//@   ensures[extracted] isNilErr(result1) ==> !(BodyExpiry in body)
+//@   also C19: only-exp, extracted
 
 // Put hands updateAndReturnDoc a callback whose captured `generation` is the generation of the `_rev` it was
 // given plus one (0+1 for a document creation), and refuses a malformed `_rev` before anything else happens.
@@ -273,6 +280,12 @@ package db
 //@   modifies *
 //@   before[generation] call updateAndReturnDoc#1 pGen(matchRev) >= 0 && generation == pGen(matchRev) + 1
 //@   before[new-doc]    call updateAndReturnDoc#1 newDoc != nil
+// (C19) what Put hands on: the reserved properties it consumes are gone from the body before the write callback can
+// see it (_id, _rev, _cv, _exp, _attachments, _revisions removed; _sync refused by validateAPIDocUpdate), and the
+// tombstone flag is the body's own "_deleted": true.
+//@   before[stripped]     call updateAndReturnDoc#1 !(BodyId in body) && !(BodyRev in body) && !(BodyCV in body) && !(BodyExpiry in body) && !(BodyAttachments in body) && !(BodyRevisions in body) && !(base.SyncPropertyName in body)
+//@   before[deleted-flag] call updateAndReturnDoc#1 deleted == body.IsDeleted()
+//@   also C19: stripped, deleted-flag
 
 // PutExistingRevWithConflictResolution hands updateAndReturnDoc a callback whose captured newRev is the first id
 // of the history it was given (callback precondition [new-rev]; len(docHistory) > 0 is implied by the index
